@@ -728,12 +728,33 @@ func ruleKindSwitch(c *Ctx) {
 			c.R.Anchor(name)
 			continue
 		}
-		sw, _ := c.kindSwitchOf(fd, 0)
+		sw, swOwner := c.kindSwitchOf(fd, 0)
 		if sw == nil {
 			c.R.Bad(name, "switch over Kind", fd.Pos(), "not found")
 			continue
 		}
 		cases := c.switchCasesByConst(sw)
+		// a function that answers some kinds early (`if k.IsPrimitive() { switch k { .. } }`) and the rest in a second switch
+		// over the same tag covers the union of the two; every one of these switches must fail in default
+		var more []*ast.SwitchStmt
+		inspectNoLit(swOwner.Body, func(x ast.Node) bool {
+			if s2, ok := x.(*ast.SwitchStmt); ok && s2 != sw && s2.Tag != nil && src(s2.Tag) == src(sw.Tag) {
+				more = append(more, s2)
+			}
+			return true
+		})
+		extraDefaultsOK := true
+		for _, s2 := range more {
+			c2 := c.switchCasesByConst(s2)
+			for k, cc := range c2 {
+				if _, dup := cases[k]; !dup && k != "default" {
+					cases[k] = cc
+				}
+			}
+			if d := c2["default"]; d == nil || len(c.callsTo(&ast.BlockStmt{List: d.Body}, "util.Unreachable", "builtin.panic")) == 0 {
+				extraDefaultsOK = false
+			}
+		}
 		var missing []string
 		for _, k := range t.want {
 			if _, ok := cases[k]; !ok {
@@ -746,7 +767,7 @@ func ruleKindSwitch(c *Ctx) {
 		}
 		c.R.Check(len(missing) == 0, name, "switch over Kind exhaustive", sw.Pos(), why, "kinds without an arm: "+strings.Join(missing, ", ")+" — values of these kinds hit the default branch")
 		def := cases["default"]
-		okDef := def != nil && len(c.callsTo(&ast.BlockStmt{List: def.Body}, "util.Unreachable", "builtin.panic")) > 0
+		okDef := def != nil && len(c.callsTo(&ast.BlockStmt{List: def.Body}, "util.Unreachable", "builtin.panic")) > 0 && extraDefaultsOK
 		c.R.Check(okDef, name, "default fails", sw.Pos(), "unexpected kinds stop loudly", "default branch missing or silent")
 	}
 	c.kindClasses(pk, prim, comp)
